@@ -1,6 +1,8 @@
 package functions
 
 import (
+	"fmt"
+
 	"diagonal.works/b6"
 	"diagonal.works/b6/api"
 	pb "diagonal.works/b6/proto"
@@ -194,7 +196,14 @@ func keyed(context *api.Context, key string) (b6.Query, error) {
 
 // Wrap a query to only match features with the given feature type.
 func typed(context *api.Context, typ string, q b6.Query) (b6.Query, error) {
-	return b6.Typed{Type: b6.FeatureTypeFromString(typ), Query: q}, nil
+	t := b6.FeatureTypeFromString(typ)
+	switch t {
+	case b6.FeatureTypePoint, b6.FeatureTypePath, b6.FeatureTypeArea, b6.FeatureTypeRelation:
+	default:
+		// Typed queries can only be compiled for these types
+		return nil, fmt.Errorf("typed: expected point, path, area or relation, found %q", typ)
+	}
+	return b6.Typed{Type: t, Query: q}, nil
 }
 
 // Return a query that will match features that match both given queries.
